@@ -204,6 +204,24 @@ var scenarios = map[string]scenario{
 		s.N.Transaction(tx)
 		return s.W
 	}},
+	// D22: the re-request inside sendRecoveryRequest completes the proposal from the pool, the block fails verification,
+	// the node's own ChangeView is the M-th one and the view changes inside the call - where the library learns that
+	// the application has withdrawn its key; the outer frame then went on and broadcast its RecoveryRequest as a
+	// watch-only node (validator index 65535).  Introduced by the D21 repair, found at VERIF_SEED=51.
+	"D22-recovery-request-after-nested-reinit": {Prop: "C13", Key: "watchonly-broadcast", Run: func(keep bool) *sim.World {
+		s := sim.NewSolo(soloCfg(4, 1, -1), &ReplaySrc{}, 0, false, []*sim.Mon{sim.MonC13()}, keep)
+		s.N.Start() // height 2, primary 2, the node is backup 0
+		tx := s.W.NewTx(true) // no block may contain it: verification will fail
+		p := s.Proposal(0, s.NextTs(), 1, tx)
+		s.N.Receive(p)
+		s.N.Receive(s.Recovery(2, 1, s.CV(2, 0, 1))) // the primary gives up on its own view (recovery message tagged with the next view)
+		s.N.Receive(s.CV(3, 0, 1))
+		s.N.Receive(s.Commit(2, p)) // one committed + one never heard of (validator 1): more than F committed or lost
+		s.N.AddTx(tx)               // reaches the pool before the application's notification
+		s.N.KeyWithdrawn, s.N.KeyWithdrawnH, s.N.KeyWithdrawnV = true, s.H(), s.V()
+		s.Fire() // timeout -> recovery request -> pool lookup -> verification fails -> own ChangeView is the M-th
+		return s.W
+	}},
 	// D8: timePerBlock << (view+1) overflowed into a negative timer duration at high views.
 	"D8-view-timeout-overflow": {Prop: "C10", Key: "D8-negative-duration-high-view", Run: func(keep bool) *sim.World {
 		cfg := soloCfg(4, 1, -1)
